@@ -141,8 +141,10 @@ Variables (max_st : nat) (limit : option N) (fuelv : nat).
 
 (* Regex::find_from_pos_with_option_flags on a VM-compiled regex *)
 Definition vsearch : nat -> bool -> sres := regex_search (RFancy p ng) max_st limit fuelv tx.
-(* the model's step budget is an artefact of the model (vm.rs has none): assumed large enough *)
-Hypothesis Hnf : forall pos f, vsearch pos f <> SErr EFuel.
+(* the model's step budget is an artefact of the model (vm.rs has none): large enough for the
+   searches that start at a character boundary - the only ones the iterators perform
+   (Proofs/ApiTotal.v shows that such a budget exists) *)
+Hypothesis Hnf : forall pos f, is_boundary tx pos = true -> vsearch pos f <> SErr EFuel.
 
 Lemma wfe_of_wrap : wfe e.
 Proof. destruct Hok as (Hw & _). cbn in Hw. tauto. Qed.
@@ -183,7 +185,7 @@ Proof.
   apply (vsearch_ok pos f sv); auto. apply is_boundary_bnd; auto.
 Qed.
 Lemma gsearch_nf : forall pos f, gsearch pos f <> SErr EFuel.
-Proof. intros pos f. unfold gsearch. destruct (is_boundary tx pos); [apply Hnf|discriminate]. Qed.
+Proof. intros pos f. unfold gsearch. destruct (is_boundary tx pos) eqn:E; [now apply Hnf|discriminate]. Qed.
 
 Lemma tx_b0 : is_boundary tx 0 = true.
 Proof. apply bnd_is_boundary; auto. constructor. Qed.
